@@ -8,6 +8,7 @@ import (
 	"fmt"
 	"io"
 	"net"
+	"runtime/debug"
 	"strings"
 	"time"
 
@@ -29,11 +30,17 @@ func main() { vm.Main("C09", run) }
 type rop struct {
 	name string
 	run  func(r io.Reader) (repr string, n int64, err error)
+	// toEOF: the item has no end of its own, the operation reads until the stream ends (PluginMessageData). A stream
+	// that ends early is then a shorter item, not a failure; a stream that FAILS is still a failure.
+	toEOF bool
 }
 
 type rcase struct {
 	op    rop
 	input []byte // exactly the item's bytes
+	// light: an expensive item (tens of thousands of elements decoded by reflection or rendered as text): fewer
+	// fragmentation plans and failure offsets are run on it
+	light bool
 }
 
 var trailer = []byte{0x5a, 0x5a, 0x5a, 0x5a, 0x5a}
@@ -125,7 +132,12 @@ func checkRead(c *vm.Ctx, r *vm.Rand, rc *rcase) {
 	bConsumed := int(base.N)
 	c.Eval(vm.Hash64([]byte(rc.op.name), rc.input), len(rc.input) > 1)
 	nplans := 0
-	for _, plan := range plansFor(r, len(rc.input)) {
+	plans := plansFor(r, len(rc.input))
+	if rc.light && len(plans) > 40 {
+		// one byte at a time, 12 single splits, 12 random plans
+		plans = append(append(append([][]int{}, plans[0]), plans[1:13]...), plans[len(plans)-12:]...)
+	}
+	for _, plan := range plans {
 		src := &inject.ChunkReader{B: in, Plan: plan}
 		cnt := &countingPlain{r: src}
 		var repr string
@@ -151,32 +163,148 @@ func checkRead(c *vm.Ctx, r *vm.Rand, rc *rcase) {
 			return
 		}
 	}
+	// the same stream from a source that is an io.ByteReader as well (a bytes.Reader inside Packet.Scan, a bufio.Reader
+	// around a socket): the single-byte reads then go through ReadByte, the others through Read
+	for _, plan := range [][]int{plans[0], plans[len(plans)-1]} {
+		src := &inject.ChunkByteReader{ChunkReader: inject.ChunkReader{B: in, Plan: plan}}
+		var repr string
+		var n int64
+		var err error
+		ex := map[string]any{"read_plan": plan, "source": "io.Reader + io.ByteReader"}
+		if c.Guard("read/"+rc.op.name, func() any { return rc.wit(ex) }, func() { repr, n, err = rc.op.run(src) }) {
+			return
+		}
+		switch {
+		case err != nil:
+			c.Violation("frag/"+rc.op.name+"/error-from-byte-reader", fmt.Sprintf("the same stream from an io.ByteReader source (reads of %v bytes) fails: %v", plan, err), rc.wit(ex))
+			return
+		case repr != bRepr:
+			c.Violation("frag/"+rc.op.name+"/value-depends-on-byte-reader", fmt.Sprintf("from an io.ByteReader source the value is %s, from a plain reader %s", short(repr), short(bRepr)), rc.wit(ex))
+			return
+		case n != bN:
+			c.Violation("frag/"+rc.op.name+"/count-depends-on-byte-reader", fmt.Sprintf("from an io.ByteReader source the reported count is %d, from a plain reader %d", n, bN), rc.wit(ex))
+			return
+		case src.Pos != bConsumed:
+			c.Violation("frag/"+rc.op.name+"/residual-depends-on-byte-reader", fmt.Sprintf("from an io.ByteReader source the operation consumed %d bytes of the stream, from a plain reader %d", src.Pos, bConsumed), rc.wit(ex))
+			return
+		}
+		c.Cover("frag.byte-reader-source")
+	}
 	c.CoverN("frag.plans-run", int64(nplans))
 	c.Cover("frag." + rc.op.name)
 	// failures at every offset before the item is complete
 	offs := faultOffsets(r, bConsumed)
+	if rc.light && len(offs) > 200 {
+		offs = append(append(append([]int{}, offs[:16]...), offs[112:128]...), offs[len(offs)-32:]...) // first 8, last 8, 16 more at either end, 32 random
+	}
+	nByteReader, nWithData := 0, 0
+	guardSub := "fault/" + rc.op.name
 	for _, k := range offs {
 		for _, e := range []error{io.EOF, errSentinel} {
-			faultPlans := [][]int{{1 << 30}, {1}}
-			if len(rc.input) > 20000 {
-				faultPlans = [][]int{{1 << 30}, {4096}, {65536, 1000}} // one byte at a time would take minutes here
+			if e == io.EOF && rc.op.toEOF {
+				continue
 			}
-			for _, plan := range faultPlans {
-				src := &inject.ChunkReader{B: in[:k], Plan: plan, Err: e}
+			// how the k bytes and the failure are delivered: by a plain reader in one piece and one byte at a time; by a
+			// source that is an io.ByteReader too; and with the failure returned by the very Read that hands out the last
+			// byte (n > 0 together with the error, as a socket or a cipher/zlib reader may do)
+			small := []int{1}
+			if len(rc.input) > 20000 {
+				small = []int{4096} // one byte at a time would take minutes here
+			}
+			deliveries := []faultDelivery{{"", []int{1 << 30}}, {"", small}}
+			if len(rc.input) > 20000 {
+				deliveries = append(deliveries, faultDelivery{"", []int{65536, 1000}})
+			}
+			// (the added deliveries cost one pass over the k bytes each: the one-byte plan above is quadratic in the item's length already)
+			if k%2 == 0 {
+				deliveries = append(deliveries, faultDelivery{"byte-reader", []int{1 << 30}})
+			} else {
+				deliveries = append(deliveries, faultDelivery{"byte-reader", []int{7}})
+			}
+			if k > 0 {
+				// all k bytes and the failure from one Read; k-1 bytes, then the last byte and the failure
+				deliveries = append(deliveries, faultDelivery{"error-with-last-data", []int{1 << 30}}, faultDelivery{"error-with-last-data", []int{max(1, k-1), 1}})
+			}
+			for _, d := range deliveries {
+				src := d.source(in[:k], e)
 				var err error
-				ex := map[string]any{"stream_fails_after_bytes": k, "failure": e.Error(), "read_plan": plan}
-				if c.Guard("fault/"+rc.op.name, func() any { return rc.wit(ex) }, func() { _, _, err = rc.op.run(src) }) {
+				wit := func() any { // built only when something is reported: this loop runs millions of times
+					ex := map[string]any{"stream_fails_after_bytes": k, "failure": e.Error(), "read_plan": d.plan}
+					if d.how != "" {
+						ex["delivery"] = d.how
+					}
+					return rc.wit(ex)
+				}
+				if c.Guard(guardSub, wit, func() { _, _, err = rc.op.run(src) }) {
 					return
 				}
 				if err == nil {
-					c.Violation("fault/"+rc.op.name+"/read-failure-swallowed", fmt.Sprintf("the stream ends/fails after %d of the item's %d bytes (%v) and the operation reports success", k, bConsumed, e), rc.wit(ex))
+					sig := "fault/" + rc.op.name + "/read-failure-swallowed"
+					if d.how != "" {
+						sig += "/" + d.how
+					}
+					c.Violation(sig, fmt.Sprintf("the stream ends/fails after %d of the item's %d bytes (%v) and the operation reports success", k, bConsumed, e), wit())
 					return
+				}
+				switch d.how {
+				case "byte-reader":
+					nByteReader++
+				case "error-with-last-data":
+					nWithData++
 				}
 			}
 		}
 	}
 	c.CoverN("fault.read-offsets-run", int64(len(offs)))
+	c.CoverN("fault.read.from-byte-reader", int64(nByteReader))
+	c.CoverN("fault.read.error-with-last-data", int64(nWithData))
 	c.Cover("fault.read." + rc.op.name)
+}
+
+type faultDelivery struct {
+	how  string // "" (a plain io.Reader that returns the failure after the data), "byte-reader", "error-with-last-data"
+	plan []int
+}
+
+func (d faultDelivery) source(b []byte, e error) io.Reader {
+	switch d.how {
+	case "byte-reader":
+		return &inject.ChunkByteReader{ChunkReader: inject.ChunkReader{B: b, Plan: d.plan, Err: e}}
+	case "error-with-last-data":
+		return &tailErrReader{B: b, Plan: d.plan, Err: e}
+	}
+	return &inject.ChunkReader{B: b, Plan: d.plan, Err: e}
+}
+
+// tailErrReader delivers B in reads of the sizes in Plan (cycled). The Read that hands out the last byte returns Err
+// together with it (n > 0 and a non-nil error from one call, which io.Reader allows); every later Read returns (0, Err).
+type tailErrReader struct {
+	B    []byte
+	Pos  int
+	Plan []int
+	i    int
+	Err  error
+}
+
+func (t *tailErrReader) Read(p []byte) (int, error) {
+	if len(p) == 0 {
+		return 0, nil
+	}
+	if t.Pos >= len(t.B) {
+		return 0, t.Err
+	}
+	k := 1
+	if len(t.Plan) > 0 {
+		k = max(1, t.Plan[t.i%len(t.Plan)])
+		t.i++
+	}
+	k = min(k, len(p))
+	n := copy(p[:k], t.B[t.Pos:])
+	t.Pos += n
+	if t.Pos == len(t.B) {
+		return n, t.Err
+	}
+	return n, nil
 }
 
 func faultOffsets(r *vm.Rand, n int) []int {
@@ -209,6 +337,9 @@ type wcase struct {
 	name string
 	note string
 	run  func(w io.Writer) error
+	// lenient: whether this value can be written at all is another property's question (the text form of a generated
+	// document): when the healthy writer already gets an error the case is left out
+	lenient bool
 }
 
 func checkWrite(c *vm.Ctx, r *vm.Rand, wc *wcase) {
@@ -228,6 +359,10 @@ func checkWrite(c *vm.Ctx, r *vm.Rand, wc *wcase) {
 		return
 	}
 	if err != nil {
+		if wc.lenient {
+			c.Cover("write.left-out-not-encodable." + wc.name)
+			return
+		}
 		c.Violation("write/"+wc.name+"/error-on-healthy-writer", err.Error(), wit(nil))
 		return
 	}
@@ -275,7 +410,10 @@ func fieldOp[T any, PT interface {
 	return rop{name: name, run: func(r io.Reader) (string, int64, error) {
 		v := new(T)
 		n, err := PT(v).ReadFrom(r)
-		return fmt.Sprintf("%v", *v), n, err
+		if err != nil {
+			return "", n, err // the value is compared on success only: no need to render it (256-byte signatures at every failure offset)
+		}
+		return fmt.Sprintf("%v", *v), n, nil
 	}}
 }
 
@@ -695,12 +833,19 @@ func run(c *vm.Ctx) {
 			checkRead(c, c.Rand("big-plans"), rc)
 		}
 	}
+	for i, rc := range bigCases2(c.Rand("big2")) {
+		if c.Shard == (3+i)%c.NShards { // one or two per shard
+			checkRead(c, c.Rand("big-plans"), rc)
+		}
+	}
 	if c.Shard == 0 {
 		br := c.Rand("botconn")
 		for i := 0; i < c.Scale(40, 400); i++ {
 			botConnWriteFailure(c, br)
 		}
 	}
+	// from here on: millions of short runs that each allocate a little and keep nothing - collect less often
+	debug.SetGCPercent(400)
 	r := c.Rand("cases")
 	cfg := nbtgen.Default()
 	cfg.MaxNodes = 25
@@ -709,6 +854,8 @@ func run(c *vm.Ctx) {
 	g := nbtgen.New(r, cfg)
 	for i := 0; i < c.Scale(800, 12000); i++ {
 		rcs, wcs := genCases(c, r, g)
+		rcs2, wcs2 := moreCases(c, r, g, i)
+		rcs, wcs = append(rcs, rcs2...), append(wcs, wcs2...)
 		for _, rc := range rcs {
 			checkRead(c, r, rc)
 		}
